@@ -90,8 +90,14 @@ def bundled_setup(plans: List[P.BoardPlan], teams: Dict[str, str], play_kind: st
         srv.PlayingPhaseWithHands = recording(RealPWH, rec['server_pp'], 'server')
         bs = board_settings(plans)
 
+        opener = srv.open
+
+        class HarnessPath(type(pathlib.Path())):
+            def open(self, mode='r', *a, **k):
+                return opener(str(self), mode)
+
         def main_body():
-            with srv.Server(ip_address=ADDR[0], port=ADDR[1], output_file_path=pathlib.Path(OUT), board_settings=bs) as server:
+            with srv.Server(ip_address=ADDR[0], port=ADDR[1], output_file_path=HarnessPath(OUT), board_settings=bs) as server:
                 server.run()
             w['returned'] = True
         t = s.add_thread('main', main_body, tid=0)
